@@ -19,7 +19,8 @@ import (
 	"qchen.fun/fatchoy/sched"
 )
 
-// Op kinds: after d | every p | cancel id | add | del | advance n | clock n | size | sched id | links
+// Op kinds: after d | every p | cancel id | add | del | advance n | clock n | size | sched id | links | harr
+// (harr, heap only: the heap ARRAY as it lies in memory, `arr=ID@INDEX:DEADLINE,...` in array order, `arr=-` when empty)
 // and the fine-grained tick `ftick n` (wheel: n = 1, one tick; heap: n units pass, then one tick): Sub[k] are the
 // client ops (after / every / cancel / size / sched) that run at the k-th schedule point INSIDE the tick
 // (before the worker takes the guard to decide about a node, or between that decision and the send).
@@ -31,7 +32,7 @@ type Op struct {
 
 func (o Op) String() string {
 	switch o.K {
-	case "add", "del", "size", "links":
+	case "add", "del", "size", "links", "harr":
 		return o.K
 	}
 	s := o.K + " " + strconv.FormatInt(o.A, 10)
@@ -300,6 +301,32 @@ type Obs struct {
 	Panic  string
 	Hang   string // the op did not return within the watchdog's (generous) deadline; the instance is abandoned
 	Refuse bool   // the harness did not run the op (it would block the synchronous driver)
+	Arr    []HeapEnt // harr: the heap array in array order
+}
+
+// HeapEnt is one slot of the heap array as the real scheduler holds it.
+type HeapEnt struct {
+	ID, Index int
+	Deadline  int64
+}
+
+// ArrText is the canonical text of a heap array: ID@INDEX:DEADLINE joined by commas, "-" when empty.
+func ArrText(a []HeapEnt) string {
+	if len(a) == 0 {
+		return "-"
+	}
+	var sb strings.Builder
+	for i, e := range a {
+		if i > 0 {
+			sb.WriteByte(',')
+		}
+		sb.WriteString(strconv.Itoa(e.ID))
+		sb.WriteByte('@')
+		sb.WriteString(strconv.Itoa(e.Index))
+		sb.WriteByte(':')
+		sb.WriteString(strconv.FormatInt(e.Deadline, 10))
+	}
+	return sb.String()
 }
 
 // doInner runs a client op from inside a schedule-point callback (a panic propagates to the tick's Guard).
@@ -460,6 +487,17 @@ func (r *Real) do(o Op) Obs {
 			ob.Out = strconv.FormatBool(ob.Bool)
 		case "links":
 			ob.Out = r.links()
+		case "harr":
+			if r.q == nil {
+				ob.Out, ob.Refuse = "bad-op", true
+				return
+			}
+			ids, index, deadline := r.q.HeapArray()
+			ob.Arr = make([]HeapEnt, len(ids))
+			for i := range ids {
+				ob.Arr[i] = HeapEnt{ID: ids[i], Index: index[i], Deadline: deadline[i]}
+			}
+			ob.Out = "arr=" + ArrText(ob.Arr)
 		default:
 			ob.Out, ob.Refuse = "bad-op", true
 		}
